@@ -106,6 +106,10 @@ class Executor(Base, ContMixin, ExprMixin, CallMixin, LibMixin, StmtMixin, CompM
 
     def check_exit(self, c, f, frame, pre, st, val, label, param_cells):
         ctx = self.ctx
+        if c.returns and c.returns != 'none' and isinstance(val, Cont) and getattr(val, 'empty_literal', False):
+            rt0 = parse_type(c.returns)
+            if rt0.is_container:
+                self.term(val, st, rt0)
         post = st.fork()
         post.spec = True
         post.pc = st.pc
@@ -114,6 +118,8 @@ class Executor(Base, ContMixin, ExprMixin, CallMixin, LibMixin, StmtMixin, CompM
         # container params keep their identity (location) -> current value is read through the loc
         if c.returns and c.returns != 'none':
             rt = parse_type(c.returns)
+            if isinstance(val, Cont) and getattr(val, 'empty_literal', False) and rt.is_container:
+                self.term(val, st, rt)
             if isinstance(val, NoneV) and rt.kind == 'ref':
                 val = RefV(NONE, rt, True)
             elif isinstance(val, NoneV) and rt.kind == 'optint':
@@ -123,6 +129,11 @@ class Executor(Base, ContMixin, ExprMixin, CallMixin, LibMixin, StmtMixin, CompM
             elif isinstance(val, RefV) and rt.kind == 'ref' and val.t.cls == 'object':
                 val = RefV(val.term, rt, val.nullable)
             post.locals['result'] = val
+        for gname in c.ghost_out:
+            if gname in st.locals:
+                post.locals[gname] = st.locals[gname]
+            else:
+                post.locals[gname] = self.fresh_val('go_' + gname, parse_type(c.ghost_out[gname]), st)
         for i, e in enumerate(c.ensures):
             g = self.spec_bool(e, post, frame)
             self.oblige(st, g, 'ensures#%d' % i, frame, f.node, e)
